@@ -58,6 +58,8 @@ func (d *Driver) getServerCapabilities() ([]byte, error) {
 		b, err := d.Channel.ReadUntilPrompt(ctx)
 		if err != nil {
 			cr <- &result{b: b, err: err}
+
+			return
 		}
 
 		if ctx.Err() != nil {
@@ -72,6 +74,16 @@ func (d *Driver) getServerCapabilities() ([]byte, error) {
 	}()
 
 	r := <-cr
+	if r == nil {
+		// the hello only became complete as the deadline passed: the reader gave up without a result
+		d.Logger.Critical("channel timeout reading capabilities")
+
+		return nil, fmt.Errorf(
+			"%w: channel timeout reading capabilities",
+			util.ErrTimeoutError,
+		)
+	}
+
 	if r.err != nil {
 		if errors.Is(r.err, context.DeadlineExceeded) {
 			d.Logger.Critical("channel timeout reading capabilities")
